@@ -120,6 +120,36 @@ def run(repo, seed, tier):
                                        'input': desc + ' import %s' % mod,
                                        'observed': 'resolved=%r although %r %s the path' % (found, os.path.relpath(home, top),
                                                                                              'is on' if should else 'is not on')})
+        # discovery: a saved project is found again from any script below it - the nearest directory with a saved
+        # configuration wins, whether or not the directories on the way (the project directory included) are packages
+        from jedi.api.project import get_default_project
+        disc = os.path.join(top, 'disc')
+        for init_proj, init_sub, init_deep, depth in itertools.product((False, True), (False, True), (False, True), (0, 1, 2)):
+            evaluations += 1
+            shutil.rmtree(disc, ignore_errors=True)
+            dproj = os.path.join(disc, 'outer', 'dproj')
+            dirs = [dproj, os.path.join(dproj, 'sub'), os.path.join(dproj, 'sub', 'deep')]
+            os.makedirs(dirs[2])
+            for flag, dd in zip((init_proj, init_sub, init_deep), dirs):
+                if flag:
+                    open(os.path.join(dd, '__init__.py'), 'w').close()
+            open(os.path.join(disc, 'outer', 'setup.py'), 'w').close()      # a project marker further up must not win
+            script = os.path.join(dirs[depth], 'script.py')
+            open(script, 'w').close()
+            Project(dproj, added_sys_path=[add1], smart_sys_path=False, load_unsafe_extensions=True).save()
+            desc = repr({'__init__.py in': [os.path.relpath(dd, disc) for flag, dd in zip((init_proj, init_sub, init_deep), dirs) if flag],
+                         'script': os.path.relpath(script, disc)})
+            try:
+                q = get_default_project(script)
+            except Exception as e:
+                violations.append({'label': 'get_default_project raised', 'input': desc, 'observed': repr(e)})
+                continue
+            got = (str(q.path), q.added_sys_path, q.smart_sys_path, q.load_unsafe_extensions)
+            want = (dproj, [add1], False, True)
+            if got != want:
+                violations.append({'label': 'project discovery does not load the saved project of the nearest directory',
+                                   'input': desc, 'observed': 'got %r want %r' % (got, want)})
+        shutil.rmtree(disc, ignore_errors=True)
         # round trip
         envp = sys.executable
         for explicit, added, smart, unsafe, ep in itertools.product(
